@@ -112,7 +112,7 @@ def main(tier: str) -> int:
     res.assumptions = ['oracle: the original program\'s own result; inputs on which the original raises are skipped',
                        'STRICT strategies: AssertionError at run time / ValueError at transform time are the documented outcome when the length is not divisible',
                        'a variable split factor that is not a free variable of the function is a refusal']
-    run_shards('vf.checks.c08', 16, tier, s, timeout=1200 if tier == 'quick' else 3400, res=res)
+    run_shards('vf.checks.c08', 16 if tier == 'quick' else 96, tier, s, timeout=1200 if tier == 'quick' else 3400, res=res)
     v, c = res.counters.get('variants', 0), res.counters.get('variants_changed', 0)
     res.extra['changed_fraction'] = round(c / v, 3) if v else 0
     if v and c < 0.3 * v and not res.violations:
